@@ -77,6 +77,10 @@ var (
 	// a contract creation without init code whose gas limit (40 000) lies between the price of a plain send
 	// (21 000) and the intrinsic gas of a creation (53 000): must fail its pre-checks without any trace
 	mkLowGas = op{Kind: "create-empty-lowgas", From: "EA"}
+	// operations that make an OLVM transaction LOAD an account without changing it (zero-value transfer; the
+	// reverted / out-of-gas calls above do the same to the contract), and the native credit of that account
+	xferZeroEB = op{Kind: "transfer-zero", From: "EA", To: "EB"}
+	sendAEB    = op{Kind: "native-send", From: "A", To: "EB"}
 )
 
 // singles: one operation per block.
@@ -127,6 +131,11 @@ func triples() []event {
 		t(xferLow, sendAEA, xferEB),      // rejected for its nonce, native credit, then a transfer
 		t(wrongChain, sendAEA, xferEB),   // rejected for its chain id, native credit, then a transfer
 		t(xferEB, sendAEA, xferA),        // executed, native credit, executed again
+		// an EXECUTED OLVM transaction that only reads an account (added after a seeded change - the adapter
+		// keeping read-only objects alive until the end of the block - escaped the triples above, whose first
+		// transaction is either rejected or changes every account it loads)
+		t(callRevert, sendAStore, callOK), // the contract is loaded and left clean by a reverted call, natively credited, then written by a call
+		t(xferZeroEB, sendAEB, xferEB),    // the recipient is loaded by a zero-value transfer, natively credited, then credited through the EVM
 	}
 }
 
